@@ -139,3 +139,15 @@ package labelmap
 //@   safety_off
 //@   calls_havoc
 //@   modifies *
+
+// ---- payload validation of raw label writes (C20) ----
+// Past the size check of PutLabels the posted buffer holds exactly 8 bytes per voxel of the subvolume,
+// computed without wrap-around (the block writers index the buffer on that assumption, in goroutines that
+// no recover() protects).
+//@ func Data.PutLabels
+//@   prop C20
+//@   requires d != nil && subvol != nil
+//@   safety_off
+//@   calls_havoc
+//@   modifies *
+//@   assert at "r, err := imageblk.GetROI(v, roiname, subvol)": int64(len(data)) == subvol.size.Prod() * 8
